@@ -114,6 +114,20 @@ def to_src(v, model, c: Ctx) -> str:
     hook = getattr(v, "__vc_src__", None)
     if hook is not None:
         return hook(model, c)
+    tn, tm = type(v).__name__, getattr(type(v), "__module__", "")
+    if tm == "affine" and tn == "Affine":
+        return "R('affine:Affine')(" + ", ".join(to_src(getattr(v, k), model, c) for k in "abcdef") + ")"
+    if tm.startswith("odc.geo"):
+        if tn in ("XY", "Index2d", "Shape2d", "Resolution"):
+            return f"R('{tm}:{tn}')(x={to_src(v.x, model, c)}, y={to_src(v.y, model, c)})"
+        if tn == "CRS":
+            return f"R('{tm}:CRS')({str(v)!r})"
+        if tn == "BoundingBox":
+            return f"R('{tm}:BoundingBox')(*{to_src(tuple(v._box), model, c)}, crs={to_src(v._crs, model, c)})"
+        if tn == "GeoBox":
+            return f"R('{tm}:GeoBox')({to_src(tuple(v._shape.yx), model, c)}, {to_src(v._affine, model, c)}, {to_src(v._crs, model, c)})"
+        if tn == "Bin1D":
+            return f"R('{tm}:Bin1D')({to_src(v.sz, model, c)}, {to_src(v.origin, model, c)}, {to_src(v.direction, model, c)})"
     import enum
 
     if isinstance(v, enum.Enum):
@@ -457,11 +471,11 @@ def _forall_ghosts(C: Contract, c: Ctx, clause, env, ghost_reqs):
     return SymBool(z3.ForAll(bound_vars, body)) if bound_vars else SymBool(body)
 
 
-def install_stubs(exclude: Optional[str]):
+def install_stubs(exclude: Optional[str], unstub=()):
     """Replace every contracted, non-inline function except `exclude` by its contract."""
     assert not _PATCHES
     for ref, C in CONTRACTS.items():
-        if C.kind != "function" or C.inline or ref == exclude:
+        if C.kind != "function" or C.inline or ref == exclude or ref in unstub:
             continue
         try:
             mod, owner, attr, raw = shadow.resolve(ref)
@@ -533,7 +547,7 @@ def explore_case(C: Contract, case_idx: int, case: Dict[str, Shape], max_paths=N
     outcomes = {"return": 0, "raise": 0}
     t_start = time.time()
     USED_STUBS.clear()
-    install_stubs(exclude=C.fn)
+    install_stubs(exclude=C.fn, unstub=tuple(C.unstub))
     try:
         while worklist:
             if paths >= max_paths:
